@@ -221,6 +221,7 @@ def collect(ctx, policy):
             continue
         j = rec["json"]
         partial = False
+        undecided = 0
         if j.get("timed_out"):
             if rec.get("budget"):
                 # budgeted job (thorough tier only): the exploration is cut at its time budget by design; what was explored is
@@ -245,6 +246,10 @@ def collect(ctx, policy):
                             binary=rec["binary"], profile=rec["profile"], site="")
                 if f["verdict"] == "sat":
                     ctx.candidates.append(item)
+                elif rec.get("budget"):
+                    # budgeted job: an obligation the solvers do not decide within the job's caps is part of what the time budget left
+                    # undecided - counted and stated in the evidence, like the unexplored paths; it is not a verdict of either kind
+                    undecided += 1
                 else:
                     ctx.inconclusive.append(dict(item, why="solver returned unknown"))
             if c["failing_total"] > len(c["failing"]):
@@ -257,6 +262,8 @@ def collect(ctx, policy):
                 if pol == "violation" or pol is True:
                     if e["verdict"] == "sat":
                         ctx.candidates.append(item)
+                    elif rec.get("budget"):
+                        undecided += 1
                     else:
                         ctx.inconclusive.append(dict(item, why="definedness query unknown"))
             for oc, n in c["outcomes"].items():
@@ -264,7 +271,9 @@ def collect(ctx, policy):
                     continue
                 if oc.startswith("cut:"):
                     ac = allow_cut(cname) if callable(allow_cut) else allow_cut
-                    if not ac:
+                    if not ac and rec.get("budget"):
+                        undecided += n
+                    elif not ac:
                         ctx.inconclusive.append({"job": job, "case": cname, "why": "%d truncated paths: %s" % (n, oc)})
                     continue
                 if oc.startswith("worker-died") and policy.get("worker_died_is_violation"):
@@ -285,6 +294,12 @@ def collect(ctx, policy):
                     ctx.inconclusive.append({"job": job, "case": cname, "why": "no reachability witness came back sat (vacuous?)"})
             if c.get("unknown_feasibility", 0):
                 ctx.notes.append("%s: %d branch-feasibility queries unknown (both sides explored)" % (cname, c["unknown_feasibility"]))
+        if undecided:
+            ctx.partial = getattr(ctx, "partial", [])
+            ctx.partial.append({"job": job, "paths_explored": sum(c["paths"] for c in j["cases"]), "cases_started": sum(1 for c in j["cases"] if c["paths"] > 0), "cases": len(j["cases"]),
+                                "undecided_obligations_or_truncated_paths": undecided,
+                                "note": "budgeted job: %d obligations / definedness questions / truncated paths stayed undecided within the solver caps of this job; "
+                                        "they are outside the claim of this run (no verdict of either kind)" % undecided})
 
 
 def replay_candidate(ctx, binaries, cand):
@@ -469,7 +484,10 @@ def finish(ctx, spec, binaries):
         print("VIOLATION property=%s replay=%s" % (ctx.pid, v["replay"]))
         print("  case=%s obligation=%s site=%s detail=%s (%s)" % (v["case"], v["name"], v.get("site"), str(v.get("detail"))[:200], v["replay_detail"]))
     for pj in getattr(ctx, "partial", []):
-        print("PARTIAL property=%s budgeted job '%s': %d paths explored and decided, work list not empty at the time budget (stated in the evidence)" % (ctx.pid, pj["job"], pj["paths_explored"]))
+        if pj.get("undecided_obligations_or_truncated_paths"):
+            print("PARTIAL property=%s budgeted job '%s': %d obligations / paths undecided within the job's solver caps (stated in the evidence)" % (ctx.pid, pj["job"], pj["undecided_obligations_or_truncated_paths"]))
+        else:
+            print("PARTIAL property=%s budgeted job '%s': %d paths explored and decided, work list not empty at the time budget (stated in the evidence)" % (ctx.pid, pj["job"], pj["paths_explored"]))
     for inc in ctx.inconclusive[:20]:
         print("INCONCLUSIVE property=%s %s" % (ctx.pid, json.dumps({k: v for k, v in inc.items() if k not in ("model",)})[:400]))
     print("%s tier=%s: %d cases, %d paths (%d truncated), %d/%d obligations discharged, %d sat, %d unknown, %d queries, solver %.1fs, wall %.1fs"
